@@ -1378,6 +1378,8 @@ ecdsa_verify(ec_curve_p curve, bn_p hash, bn_p sign_r, bn_p sign_s,
 	if (bn_cmp(sign_r, &curve->n) >= 0 ||
 	    bn_cmp(sign_s, &curve->n) >= 0) /* sign_r and sign_s check. */
 		return (EINVAL);
+	if (0 != bn_is_zero(sign_r) || 0 != bn_is_zero(sign_s))
+		return (EINVAL);
 	/* Double size + 1 digit. */
 	bits = EC_CURVE_CALC_BITS_DBL(curve);
 	/* Init */
@@ -1549,6 +1551,8 @@ ecdsa_verify_priv_key(ec_curve_p curve, bn_p hash, bn_p sign_r, bn_p sign_s,
 		return (EINVAL);
 	if (bn_cmp(sign_r, &curve->n) >= 0 ||
 	    bn_cmp(sign_s, &curve->n) >= 0) /* sign_r and sign_s check. */
+		return (EINVAL);
+	if (0 != bn_is_zero(sign_r) || 0 != bn_is_zero(sign_s))
 		return (EINVAL);
 	if (bn_cmp(priv_key, &curve->n) >= 0) /* Key check. */
 		return (EINVAL);
